@@ -1,9 +1,104 @@
+import ScenicModel.Gen.RegionSampling
+import ScenicModel.Model.RegionSampling
 import Driver.Util
-/-! line protocol for the C03 model (stub: replaced when the property's model is built) -/
+/-! line protocol for the region-sampling model (C03); all configuration data is the one regenerated from /repo -/
 namespace Driver.C03
-open Driver
+open Scenic.RegionSampling Driver
+
+def cfg := Scenic.Gen.samplerCfg
+def zt := Scenic.Gen.zTable
+
+/-- "-" = empty list, otherwise comma separated naturals -/
+def parseNats (s : String) : Option (List Nat) :=
+  if s == "-" then some [] else (s.splitOn ",").mapM String.toNat?
+
+def parseOptNat (s : String) : Option (Option Nat) :=
+  if s == "N" then some none else s.toNat?.map some
+
+def parseOptRat (s : String) : Option (Option Rat) :=
+  if s == "N" then some none else (parseRat s).map some
+
+def parseInstr : List String → Option (Instr Nat)
+  | ["P", atoms, member] => do
+    let a ← parseNats atoms; let m ← parseNats member
+    pure (.points a m)
+  | ["O", d, sz, member, memberPt, memberFp] => do
+    let d ← parseOptNat d; let sz ← parseOptRat sz; let m ← parseNats member
+    let mp ← parseNats memberPt; let mf ← parseNats memberFp
+    pure (.opaque d sz m mp mf)
+  | ["I", args] => do pure (.inter (← parseNats args))
+  | ["U", args] => do pure (.union (← parseNats args))
+  | ["D", a, b] => do pure (.diff (← a.toNat?) (← b.toNat?))
+  | ["B", pts, inBall, other] => do pure (.ball (← pts.toNat?) (← parseNats inBall) (← other.toNat?))
+  | _ => none
+
+/-- split a token list at ";" -/
+def splitSemis (ws : List String) : List (List String) :=
+  let (cur, acc) := ws.foldl (fun (st : List String × List (List String)) w =>
+    if w == ";" then ([], st.1.reverse :: st.2) else (w :: st.1, st.2)) ([], [])
+  (cur.reverse :: acc).reverse
+
+def insertSorted (e : Nat × Rat) : List (Nat × Rat) → List (Nat × Rat)
+  | [] => [e]
+  | f :: l => if e.1 ≤ f.1 then e :: f :: l else f :: insertSorted e l
+
+def showPMF (p : SubPMF Nat) : String :=
+  let c := (collect p).foldr insertSorted []
+  let c := c.filter fun e => e.2 ≠ 0
+  "pmf" ++ String.join (c.map fun e => s!" {e.1}:{showRat e.2}")
+
+def showV (v : V3) : String := s!"{showRat v.x} {showRat v.y} {showRat v.z}"
+
+def rats (ws : List String) : Option (List Rat) := ws.mapM parseRat
 
 def handle : List String → String
+  | "prog" :: rest =>
+    match (splitSemis rest).mapM parseInstr with
+    | none => "bad-op"
+    | some prog =>
+      match (evalProgram cfg Scenic.Gen.ballFilter prog).getLast? with
+      | none => "bad-op"
+      | some o => match o.sampler with
+        | none => "undef"
+        | some p => showPMF p
+  | "rect" :: rest => match rats rest with
+    | some [px, py, pz, c, s, rx, ry] => showV (rectSample zt.rect ⟨px, py, pz⟩ c s rx ry)
+    | _ => "bad-op"
+  | "disc" :: rest => match rats rest with
+    | some [cx, cy, cz, r, ct, st] => showV (discSample zt.circle ⟨cx, cy, cz⟩ r ct st)
+    | _ => "bad-op"
+  | "sector" :: rest => match rats rest with
+    | some [cx, cy, cz, hx, hy, r, cu, su] => showV (sectorSample zt.sector ⟨cx, cy, cz⟩ hx hy r cu su)
+    | _ => "bad-op"
+  | "seg" :: rest => match rats rest with
+    | some [ax, ay, az, bx, bY, bz, t] => showV (segSample ⟨ax, ay, az⟩ ⟨bx, bY, bz⟩ t)
+    | _ => "bad-op"
+  | "pline" :: rest => match rats rest with
+    | some [ax, ay, bx, bY, t] => showV (polylineSample zt.polyline ⟨ax, ay, 0⟩ ⟨bx, bY, 0⟩ t)
+    | _ => "bad-op"
+  | "voxel" :: rest => match rats rest with
+    | some [bx, bY, bz, sx, sy, sz, ux, uy, uz] => showV (voxelSample ⟨bx, bY, bz⟩ ⟨sx, sy, sz⟩ ⟨ux, uy, uz⟩)
+    | _ => "bad-op"
+  | "polyc" :: rest => match rats rest with
+    | some [minx, miny, maxx, maxy, z, ux, uy] => showV (polyCandidate zt.polygon minx miny maxx maxy z ux uy)
+    | _ => "bad-op"
+  | "sectorcirc" :: rest => match rats rest with
+    | some [R, c] => let r := sectorCirc Scenic.Gen.sectorCircCfg R c; s!"{showRat r.1} {showRat r.2}"
+    | _ => "bad-op"
+  | "radsq" :: kind :: rest => match rats rest with
+    | some [r, hw, hl, hz] =>
+      let k := match kind with
+        | "circle" => some Scenic.Gen.circTable.circle
+        | "rect" => some Scenic.Gen.circTable.rect
+        | "mesh" => some Scenic.Gen.circTable.mesh
+        | _ => none
+      match k with
+      | some k => showRat (radiusSq k r hw hl hz)
+      | none => "bad-op"
+    | _ => "bad-op"
+  | "inball" :: rest => match rats rest with
+    | some [cx, cy, cz, rsq, x, y, z] => if inBall3 ⟨cx, cy, cz⟩ rsq ⟨x, y, z⟩ then "1" else "0"
+    | _ => "bad-op"
   | _ => "bad-op"
 
 end Driver.C03
